@@ -22,7 +22,8 @@ def build(prog):
     use = use_order(nd, prog['perm'])
     coef = {j: k + 2 for k, j in enumerate(use)}
     eq = "x' = -x + u" + ''.join(f" + {coef[j]}*p{j}" for j in use)
-    vals_a = {j: PRIMES[j - 1] for j in range(1, nd + 1)}
+    shift = prog.get('valshift', 0)      # the model exported first in a process uses other parameter values
+    vals_a = {j: PRIMES[j - 1 + shift] for j in range(1, nd + 1)}
     vals_b = {j: PRIMES[nd + j - 1] for j in range(1, nd + 1)}
     w = PRIMES[2 * nd]
     variables = {'x': 'output(1.0)'}
@@ -109,7 +110,7 @@ def job(prog):
         kw = dict(auto_constants=tuple(scen), NMX=1234)
     try:
         if prog.get('prelude'):      # another model with the same variable names was exported earlier in this process
-            other = dict(prog, perm=(prog['perm'] + 1) % 3, ovr=True, prelude=False)
+            other = dict(prog, perm=(prog['perm'] + 1) % 3, ovr=True, prelude=False, valshift=20)
             build(other)[0].get_run_func('vf0', 1e-3, backend='fortran', vectorize=False, verbose=False, auto=True, solver='scipy',
                                          float_precision='float64', file_name='automod0', auto_jac=True, in_place=False)
             from pyrates import clear_frontend_caches
